@@ -123,12 +123,11 @@ Qed.
 Section Refine.
   Variable H : host.
   Variable funcs : list ename.
-  Variable svcargs : list (ident * ident).
   Variable now : N.
   Hypothesis Hidem : forall v, h_str H (h_str H v) = h_str H v.      (* str(str(x)) == str(x) *)
   Hypothesis Hnn : forall v, h_str H v <> v_none.                    (* str(x) is never None *)
 
-  Let cf : config := {| cf_dev := all_off; cf_host := H; cf_funcs := funcs; cf_svcargs := svcargs |}.
+  Let cf : config := {| cf_dev := all_off; cf_host := H; cf_funcs := funcs |}.
 
   Lemma is_none_str v : is_none (h_str H v) = false.
   Proof. unfold is_none. apply N.eqb_neq. apply Hnn. Qed.
@@ -169,25 +168,52 @@ Section Refine.
     unfold mem_ident. apply existsb_exists. exists k. split; [exact Hin | apply N.eqb_refl].
   Qed.
 
+  (* getattr on a snapshot: a state attribute, else what every str has *)
+  Definition entity_or_str (e : ename) (s : hastate) (k : ident) : res pyval :=
+    match entity_attr H e s k with
+    | Ok v => Ok v
+    | Raise _ => if h_strattr H k then Ok PFunc else Raise EAttributeError
+    end.
+
   Lemma snap_getattr_spec e s k :
-    snap_getattr (aupdate (hs_attrs s) (virtual_fields H e s)) k = entity_attr H e s k.
+    snap_getattr H (aupdate (hs_attrs s) (virtual_fields H e s)) k = entity_or_str e s k.
   Proof.
-    unfold snap_getattr, entity_attr. rewrite alookup_aupdate.
-    - destruct (alookup k (virtual_fields H e s)); [reflexivity|]. destruct (alookup k (hs_attrs s)); reflexivity.
+    unfold snap_getattr, entity_or_str, entity_attr. rewrite alookup_aupdate.
+    - destruct (alookup k (virtual_fields H e s)); [reflexivity|]. destruct (alookup k (hs_attrs s)); [reflexivity|].
+      destruct (mem_ident k state_callable_attrs); reflexivity.
     - exact consts_fields_nodup.
   Qed.
 
-  Lemma state_get_spec st nm : state_get H svcargs (ms_ha st) nm = spec_get H svcargs st nm.
+  Lemma alookup_virtual_some e s k :
+    mem_ident k doc_virtual_attrs = true -> alookup k (virtual_fields H e s) <> None.
+  Proof.
+    unfold mem_ident, doc_virtual_attrs, virtual_fields; cbn [existsb alookup].
+    repeat match goal with |- context [N.eqb k ?c] => destruct (N.eqb k c) end; cbn; congruence.
+  Qed.
+
+  Lemma entity_attr_ok e s k :
+    amem k (hs_attrs s) || mem_ident k state_virtual_attrs || mem_ident k state_callable_attrs = true ->
+    exists v, entity_attr H e s k = Ok v.
+  Proof.
+    intros Ex. unfold entity_attr.
+    destruct (alookup k (virtual_fields H e s)) eqn:Ev; [eauto|].
+    unfold amem in Ex. destruct (alookup k (hs_attrs s)); [eauto|].
+    destruct (mem_ident k state_callable_attrs); [eauto|].
+    cbn [orb] in Ex. rewrite orb_false_r in Ex. rewrite consts_virtual_same in Ex.
+    exfalso. exact (alookup_virtual_some e s k Ex Ev).
+  Qed.
+
+  Lemma state_get_spec st nm : state_get H (ms_svcargs st) (ms_ha st) nm = spec_get H st nm.
   Proof.
     unfold state_get, spec_get.
     destruct nm as [|d [|n [|k [|x r]]]]; [reflexivity | reflexivity | | | reflexivity].
     - destruct (ha_get (ms_ha st) (d, n)) as [s|]; [rewrite stateval_new_spec|]; reflexivity.
     - destruct (ha_get (ms_ha st) (d, n)) as [s|]; [|reflexivity].
-      destruct (svc_method svcargs d k); [reflexivity|].
+      destruct (svc_method (ms_svcargs st) d k); [reflexivity|].
       rewrite stateval_new_spec. unfold snapshot_of. apply snap_getattr_spec.
   Qed.
 
-  Lemma state_exist_spec m nm : state_exist svcargs m nm = spec_exist svcargs m nm.
+  Lemma state_exist_spec svcargs m nm : state_exist svcargs m nm = spec_exist svcargs m nm.
   Proof.
     unfold state_exist, spec_exist.
     destruct nm as [|d [|n [|k [|x r]]]]; try reflexivity.
@@ -224,7 +250,7 @@ Section Refine.
         [reflexivity | rewrite adiscard_spec; reflexivity].
   Qed.
 
-  Lemma state_setattr_spec m nm v : wf_ha m ->
+  Lemma state_setattr_spec svcargs m nm v : wf_ha m ->
     state_setattr all_off H now svcargs m nm v = spec_setattr H now m nm v.
   Proof.
     intros W. unfold state_setattr, spec_setattr.
@@ -273,12 +299,12 @@ Section Refine.
   Qed.
 
   Lemma aeval2 locals st d n :
-    aeval_dn cf locals st (DAttr (DHead d) n) = of_res (spec_read H funcs svcargs locals st [d; n]).
+    aeval_dn cf locals st (DAttr (DHead d) n) = of_res (spec_read H funcs locals st [d; n]).
   Proof.
     cbn [aeval_dn]. unfold collapse. cbn [dn_head dn_parts app]. unfold ast_name_plain, spec_read, denote.
     destruct (vlookup d locals) as [o|]; [reflexivity|].
     destruct (vlookup d (ms_globals st)) as [o|]; [reflexivity|].
-    unfold ast_name_dotted, function_get. cbn [cf_funcs cf_host cf_svcargs cf].
+    unfold ast_name_dotted, function_get. cbn [cf_funcs cf_host cf].
     destruct (mem_ename (d, n) funcs || mem_ename (d, n) (ms_svcs st)); [reflexivity|].
     cbn [state_get]. destruct (ha_get (ms_ha st) (d, n)) as [s|]; [rewrite stateval_new_spec|]; reflexivity.
   Qed.
@@ -288,20 +314,20 @@ Section Refine.
     match ha_get (ms_ha st) (d, n) with
     | None => EName
     | Some s =>
-        if svc_method svcargs d k then EV PFunc
+        if svc_method (ms_svcargs st) d k then EV PFunc
         else if amem k (hs_attrs s) || mem_ident k state_virtual_attrs || mem_ident k state_callable_attrs
-             then of_res (entity_attr H (d, n) s k) else EName
+             then of_res (entity_or_str (d, n) s k) else EName
     end.
   Proof.
-    unfold ast_name_dotted, function_get. cbn [cf_funcs cf_host cf_svcargs cf state_exist state_get].
+    unfold ast_name_dotted, function_get. cbn [cf_funcs cf_host cf state_exist state_get].
     destruct (ha_get (ms_ha st) (d, n)) as [s|]; [|reflexivity].
-    destruct (svc_method svcargs d k); cbn [orb]; [reflexivity|].
+    destruct (svc_method (ms_svcargs st) d k); cbn [orb]; [reflexivity|].
     destruct (amem k (hs_attrs s) || mem_ident k state_virtual_attrs || mem_ident k state_callable_attrs); [|reflexivity].
     rewrite stateval_new_spec. unfold snapshot_of. rewrite snap_getattr_spec. reflexivity.
   Qed.
 
   Lemma aeval3 locals st d n k :
-    aeval_dn cf locals st (DAttr (DAttr (DHead d) n) k) = of_res (spec_read H funcs svcargs locals st [d; n; k]).
+    aeval_dn cf locals st (DAttr (DAttr (DHead d) n) k) = of_res (spec_read H funcs locals st [d; n; k]).
   Proof.
     change (aeval_dn cf locals st (DAttr (DAttr (DHead d) n) k))
       with (let direct := match collapse locals st (DAttr (DAttr (DHead d) n) k) with
@@ -310,7 +336,7 @@ Section Refine.
                           end in
             match direct with
             | EName => match aeval_dn cf locals st (DAttr (DHead d) n) with
-                       | EV v => of_res (py_getattr v k)
+                       | EV v => of_res (py_getattr cf v k)
                        | EName => ERaise ENameError
                        | ERaise x => ERaise x
                        end
@@ -319,30 +345,30 @@ Section Refine.
     rewrite aeval2. cbn zeta.
     unfold collapse. cbn [dn_head dn_parts app]. unfold ast_name_plain, spec_read, denote.
     destruct (vlookup d locals) as [o|].
-    { unfold obj_attr. destruct (alookup n o); reflexivity. }
+    { unfold obj_attr. destruct (alookup n o); [|reflexivity]. cbn [of_res py_getattr cf_host cf].
+      destruct (h_pyattr H v k); reflexivity. }
     destruct (vlookup d (ms_globals st)) as [o|].
-    { unfold obj_attr. destruct (alookup n o); reflexivity. }
+    { unfold obj_attr. destruct (alookup n o); [|reflexivity]. cbn [of_res py_getattr cf_host cf].
+      destruct (h_pyattr H v k); reflexivity. }
     rewrite ast_name_dotted3.
     destruct (ha_get (ms_ha st) (d, n)) as [s|] eqn:Eg.
     2: { destruct (mem_ename (d, n) funcs || mem_ename (d, n) (ms_svcs st)); reflexivity. }
-    destruct (svc_method svcargs d k) eqn:Es.
+    destruct (svc_method (ms_svcargs st) d k) eqn:Es.
     { destruct (mem_ename (d, n) funcs || mem_ename (d, n) (ms_svcs st)); reflexivity. }
     destruct (amem k (hs_attrs s) || mem_ident k state_virtual_attrs || mem_ident k state_callable_attrs) eqn:Ex.
-    - destruct (entity_attr H (d, n) s k) as [v|x] eqn:Ea.
-      + destruct (mem_ename (d, n) funcs || mem_ename (d, n) (ms_svcs st)); reflexivity.
-      + rewrite (entity_attr_raise _ _ _ _ Ea).
-        destruct (mem_ename (d, n) funcs || mem_ename (d, n) (ms_svcs st)); reflexivity.
+    - destruct (entity_attr_ok (d, n) s k Ex) as [v Ea]. unfold entity_or_str. rewrite Ea.
+      destruct (mem_ename (d, n) funcs || mem_ename (d, n) (ms_svcs st)); reflexivity.
     - apply orb_false_iff in Ex. destruct Ex as [Ex Ecl]. apply orb_false_iff in Ex. destruct Ex as [Ea Ev].
       assert (Er : entity_attr H (d, n) s k = Raise EAttributeError).
       { unfold entity_attr. rewrite (alookup_virtual_none _ _ _ Ev). unfold amem in Ea.
         destruct (alookup k (hs_attrs s)); [discriminate|]. rewrite Ecl. reflexivity. }
       rewrite Er.
       destruct (mem_ename (d, n) funcs || mem_ename (d, n) (ms_svcs st)); cbn [of_res py_getattr]; [reflexivity|].
-      unfold snapshot_of. cbn [py_getattr]. rewrite snap_getattr_spec, Er. reflexivity.
+      unfold snapshot_of. cbn [py_getattr cf_host cf]. rewrite snap_getattr_spec. unfold entity_or_str. rewrite Er. reflexivity.
   Qed.
 
   Lemma aeval_dn_spec locals st e : dn_len_ok e = true ->
-    aeval_dn cf locals st e = of_res (spec_read H funcs svcargs locals st (dn_parts e)).
+    aeval_dn cf locals st e = of_res (spec_read H funcs locals st (dn_parts e)).
   Proof.
     intros L. destruct (dn_shape e L) as [(d & n & ->)|(d & n & k & ->)]; [apply aeval2 | apply aeval3].
   Qed.
@@ -379,9 +405,9 @@ Section Refine.
       { rewrite aeval2. unfold spec_read, denote. rewrite El. unfold obj_attr. destruct (alookup n o); reflexivity. }
       destruct (vlookup d (ms_globals st)) as [o|] eqn:Egl.
       { rewrite aeval2. unfold spec_read, denote. rewrite El, Egl. unfold obj_attr. destruct (alookup n o); reflexivity. }
-      cbn [cf_host cf_dev cf cf_svcargs].
+      cbn [cf_host cf_dev cf].
       assert (E : match val with
-                  | PVal v => match state_setattr all_off H now svcargs (ms_ha st) [d; n; k] v with
+                  | PVal v => match state_setattr all_off H now (ms_svcargs st) (ms_ha st) [d; n; k] v with
                               | Ok m => Ok (with_ha st m) | Raise x => Raise x end
                   | _ => Raise EUnmodelled
                   end
@@ -421,14 +447,14 @@ Section Refine.
   Lemma wf_eval_vexpr st x : wf_slots (ms_slots st) -> wf_val (eval_vexpr st x).
   Proof. intros W. destruct x as [v|j]; cbn [eval_vexpr]; [exact I | apply W]. Qed.
 
-  Lemma py_getattr_slot p k : py_getattr p k = spec_slot_attr p k.
+  Lemma py_getattr_slot p k : py_getattr cf p k = spec_slot_attr H p k.
   Proof. destruct p; reflexivity. Qed.
 
   (* one script operation *)
   Lemma model_op_spec locals st o : wf_state st ->
-    model_op cf now locals st o = spec_op H funcs svcargs now locals st o.
+    model_op cf now locals st o = spec_op H funcs now locals st o.
   Proof.
-    intros [W Ws]. destruct o; cbn [model_op spec_op cf_host cf_svcargs cf_dev cf].
+    intros [W Ws]. destruct o; cbn [model_op spec_op cf_host cf_dev cf].
     - destruct (dn_len_ok e) eqn:L; [rewrite aeval_dn_spec by assumption|]; reflexivity.
     - rewrite state_get_spec. reflexivity.
     - destruct (dn_len_ok e) eqn:L; [|reflexivity].
@@ -446,7 +472,7 @@ Section Refine.
     - rewrite py_getattr_slot. reflexivity.
   Qed.
 
-  Lemma model_step_spec st s : wf_state st -> model_step cf now st s = spec_step H funcs svcargs now st s.
+  Lemma model_step_spec st s : wf_state st -> model_step cf now st s = spec_step H funcs now st s.
   Proof.
     intros W. destruct s as [x|locals o]; cbn [model_step spec_step cf_host cf]; [reflexivity|].
     rewrite model_op_spec by assumption. reflexivity.
@@ -468,7 +494,6 @@ Qed.
 Section Preserve.
   Variable H : host.
   Variable funcs : list ename.
-  Variable svcargs : list (ident * ident).
   Hypothesis Hidem : forall v, h_str H (h_str H v) = h_str H v.
   Hypothesis Hnn : forall v, h_str H v <> v_none.
 
@@ -492,7 +517,7 @@ Section Preserve.
   Qed.
 
   Lemma spec_read_wf locals st parts p : wf_ha (ms_ha st) ->
-    spec_read H funcs svcargs locals st parts = Ok p -> wf_val p.
+    spec_read H funcs locals st parts = Ok p -> wf_val p.
   Proof.
     intros W. unfold spec_read, obj_attr.
     destruct parts as [|d [|n [|k [|x r]]]]; try discriminate.
@@ -501,19 +526,27 @@ Section Preserve.
       + destruct (alookup n o); intros E; inversion E; exact I.
       + intros E; inversion E; exact I.
       + destruct (ha_get (ms_ha st) (d, n)) as [s|] eqn:Eg; intros E; inversion E. eapply snapshot_wf; eassumption.
-    - destruct (denote funcs locals st d n) as [o|o| |]; try discriminate.
+    - assert (Hpy : forall o, match alookup n o with
+                              | Some v => if h_pyattr H v k then Ok PFunc else Raise EAttributeError
+                              | None => Raise EAttributeError end = Ok p -> wf_val p).
+      { intros o. destruct (alookup n o) as [v|]; [destruct (h_pyattr H v k)|]; intros E; inversion E; exact I. }
+      destruct (denote funcs locals st d n) as [o|o| |]; try apply Hpy.
       all: destruct (ha_get (ms_ha st) (d, n)) as [s|] eqn:Eg; try discriminate.
-      all: destruct (svc_method svcargs d k); [intros E; inversion E; exact I|].
-      all: destruct (entity_attr H (d, n) s k) as [v|x] eqn:Ea; intros E; inversion E; subst; eapply entity_attr_wf; eassumption.
+      all: destruct (svc_method (ms_svcargs st) d k); [intros E; inversion E; exact I|].
+      all: destruct (entity_attr H (d, n) s k) as [v|x] eqn:Ea; [intros E; inversion E; subst; eapply entity_attr_wf; eassumption|].
+      all: try discriminate.
+      all: destruct (h_strattr H k); intros E; inversion E; exact I.
   Qed.
 
-  Lemma spec_get_wf st nm p : wf_ha (ms_ha st) -> spec_get H svcargs st nm = Ok p -> wf_val p.
+  Lemma spec_get_wf st nm p : wf_ha (ms_ha st) -> spec_get H st nm = Ok p -> wf_val p.
   Proof.
     intros W. unfold spec_get.
     destruct nm as [|d [|n [|k [|x r]]]]; try discriminate.
     - destruct (ha_get (ms_ha st) (d, n)) as [s|] eqn:Eg; intros E; inversion E. eapply snapshot_wf; eassumption.
     - destruct (ha_get (ms_ha st) (d, n)) as [s|] eqn:Eg; try discriminate.
-      destruct (svc_method svcargs d k); [intros E; inversion E; exact I|]. apply entity_attr_wf.
+      destruct (svc_method (ms_svcargs st) d k); [intros E; inversion E; exact I|].
+      destruct (entity_attr H (d, n) s k) as [v|x] eqn:Ea; [intros E; inversion E; subst; eapply entity_attr_wf; eassumption|].
+      destruct (h_strattr H k); intros E; inversion E; exact I.
   Qed.
 
   Lemma capture_wf st cap r : wf_state st -> (forall p, r = EV p -> wf_val p) -> wf_state (snd (capture st cap r)).
@@ -602,23 +635,25 @@ Section Preserve.
 
   Lemma ext_op_wf st x : wf_state st -> wf_state (ext_op H now st x).
   Proof.
-    intros [W Ws]. destruct x as [e v a|e|e|e]; cbn [ext_op].
+    intros [W Ws]. destruct x as [e v a|e|e|e|e|]; cbn [ext_op].
     - split; [cbn; unfold ha_async_set; apply wf_ha_write; [assumption | apply Hidem] | exact Ws].
     - split; [|exact Ws]. cbn. unfold ha_async_remove. destruct (ha_get (ms_ha st) e); cbn [snd]; [apply wf_ha_del|]; assumption.
     - destruct (mem_ename e (ms_svcs st)); split; assumption.
+    - destruct (mem_ename e (ms_svcs st)); split; assumption.
+    - split; assumption.
     - split; assumption.
   Qed.
 
-  Lemma spec_step_wf st s : wf_state st -> wf_state (snd (spec_step H funcs svcargs now st s)).
+  Lemma spec_step_wf st s : wf_state st -> wf_state (snd (spec_step H funcs now st s)).
   Proof.
     intros W. destruct s as [x|locals o]; cbn [spec_step snd]; [apply ext_op_wf; assumption|].
     destruct W as [Wh Ws]. assert (W : wf_state st) by (split; assumption).
     destruct o; cbn [spec_op].
     - destruct (dn_len_ok e); [|exact W]. apply capture_wf; [exact W|].
-      intros p E. destruct (spec_read H funcs svcargs locals st (dn_parts e)) as [p'|x] eqn:Er; inversion E; subst.
+      intros p E. destruct (spec_read H funcs locals st (dn_parts e)) as [p'|x] eqn:Er; inversion E; subst.
       eapply spec_read_wf; eassumption.
     - apply capture_wf; [exact W|].
-      intros p E. destruct (spec_get H svcargs st nm) as [p'|x] eqn:Er; inversion E; subst.
+      intros p E. destruct (spec_get H st nm) as [p'|x] eqn:Er; inversion E; subst.
       eapply spec_get_wf; eassumption.
     - destruct (dn_len_ok e); [|exact W]. apply lift_st_wf; [exact W|]. intros st' E. eapply spec_assign_wf; eassumption.
     - apply lift_ha_wf; [exact W|]. intros m E. eapply spec_set_wf; eassumption.
@@ -639,11 +674,11 @@ Section Preserve.
      stored values are strings, the Model of the code (switches off) yields the same outputs and the same final
      state as the documented rules.  Induction over the sequence; the invariant is carried along. *)
   Theorem run_refines : forall steps now st, wf_state st ->
-    run_model {| cf_dev := all_off; cf_host := H; cf_funcs := funcs; cf_svcargs := svcargs |} now st steps
-    = run_spec H funcs svcargs now st steps.
+    run_model {| cf_dev := all_off; cf_host := H; cf_funcs := funcs |} now st steps
+    = run_spec H funcs now st steps.
   Proof.
     induction steps as [|s r IH]; intros now st W; cbn [run_model run_spec]; [reflexivity|].
-    rewrite (model_step_spec H funcs svcargs now Hidem Hnn st s W).
+    rewrite (model_step_spec H funcs now Hidem Hnn st s W).
     rewrite IH by (apply spec_step_wf; exact W). reflexivity.
   Qed.
 End Preserve.
@@ -695,7 +730,7 @@ Lemma model_step_slots cf now st s j : writes_slot j s = false ->
   slot_get j (ms_slots (snd (model_step cf now st s))) = slot_get j (ms_slots st).
 Proof.
   intros Hw. destruct s as [x|locals o]; cbn [model_step snd].
-  - destruct x; cbn [ext_op]; try reflexivity. destruct (mem_ename e (ms_svcs st)); reflexivity.
+  - destruct x; cbn [ext_op]; try reflexivity; destruct (mem_ename e (ms_svcs st)); reflexivity.
   - destruct o; cbn [model_op]; cbn [writes_slot] in Hw; try reflexivity.
     + destruct (dn_len_ok e); [|reflexivity]. apply capture_slots. destruct cap; [exact Hw | exact I].
     + apply capture_slots. destruct cap; [exact Hw | exact I].
@@ -754,7 +789,7 @@ Theorem priority : forall cf locals st d n,
      aeval_dn cf locals st (DAttr (DHead d) n) = EV PFunc) /\
   (* otherwise the name is the state variable *)
   (no_pyvar locals st d -> mem_ename (d, n) (cf_funcs cf) || mem_ename (d, n) (ms_svcs st) = false ->
-     aeval_dn cf locals st (DAttr (DHead d) n) = of_res (state_get (cf_host cf) (cf_svcargs cf) (ms_ha st) [d; n])).
+     aeval_dn cf locals st (DAttr (DHead d) n) = of_res (state_get (cf_host cf) (ms_svcargs st) (ms_ha st) [d; n])).
 Proof.
   intros cf locals st d n. split; [|split].
   - intros o Hv. split.
@@ -766,7 +801,7 @@ Proof.
     rewrite Hl, Hg. unfold ast_name_dotted, function_get. rewrite Hc. reflexivity.
   - intros [Hl Hg] Hc. cbn [aeval_dn]. unfold collapse. cbn [dn_head dn_parts app]. unfold ast_name_plain.
     rewrite Hl, Hg. unfold ast_name_dotted, function_get. rewrite Hc.
-    destruct (state_get (cf_host cf) (cf_svcargs cf) (ms_ha st) [d; n]); reflexivity.
+    destruct (state_get (cf_host cf) (ms_svcargs st) (ms_ha st) [d; n]); reflexivity.
 Qed.
 
 (* with D7 repaired, del d.n on a Python variable does not touch the state machine either *)
@@ -787,8 +822,8 @@ Proof.
   destruct (N.eqb k k0) eqn:E; [apply N.eqb_eq in E; subst; intros E'; inversion E'; left; reflexivity | intros E'; right; auto].
 Qed.
 
-Lemma strtab_ok_hyps t et vt vf eqt : strtab_ok t = true ->
-  let H := mk_host t eqt et vt vf in
+Lemma strtab_ok_hyps t et vt vf eqt sa pa : strtab_ok t = true ->
+  let H := mk_host t eqt et vt vf sa pa in
   (forall v, h_str H (h_str H v) = h_str H v) /\ (forall v, h_str H v <> v_none).
 Proof.
   intros Hok. cbn zeta. cbn [mk_host h_str]. unfold strtab_ok in Hok. apply andb_true_iff in Hok. destruct Hok as [Hall H0].
@@ -825,13 +860,13 @@ Qed.
 (* ---------- non-vacuity and the refutations ---------- *)
 Definition ex_host : host :=
   mk_host [(0, 27); (10, 10); (11, 11); (15, 15); (16, 15); (19, 20); (20, 20); (27, 27)]%N [(19, 16)]%N
-          [((1, 10), 500); ((1, 11), 501); ((3, 10), 512)]%N 19%N 21%N.
+          [((1, 10), 500); ((1, 11), 501); ((3, 10), 512)]%N 19%N 21%N [24]%N [(10, 24); (11, 24)]%N.
 Definition ex_state : mstate :=
-  {| ms_ha := [((1, 10), mk_hs 10 [(20, 16); (21, 11)] 1 2 3); ((3, 10), mk_hs 11 [] 1 1 1)]%N; ms_svcs := [(1, 14)]%N;
+  {| ms_ha := [((1, 10), mk_hs 10 [(20, 16); (21, 11)] 1 2 3); ((3, 10), mk_hs 11 [] 1 1 1)]%N; ms_svcs := [(1, 14); (1, 13)]%N; ms_esvcs := [(1, 13)]%N; ms_svcargs := [(1, 13)]%N;
      ms_globals := [(3, [(10, 15)])]%N; ms_slots := [(0, PVal 0)]%N |}.
 Definition ex_funcs : list ename := state_function_names.
 Definition ex_cfg (dv : deviations) : config :=
-  {| cf_dev := dv; cf_host := ex_host; cf_funcs := ex_funcs; cf_svcargs := [(1, 13)]%N |}.
+  {| cf_dev := dv; cf_host := ex_host; cf_funcs := ex_funcs |}.
 
 (* the hypotheses of [run_refines] hold for a concrete host and a non-trivial state *)
 Example host_table_ok :
@@ -839,7 +874,7 @@ Example host_table_ok :
   wf_state ex_host ex_state.
 Proof.
   destruct (strtab_ok_hyps [(0, 27); (10, 10); (11, 11); (15, 15); (16, 15); (19, 20); (20, 20); (27, 27)]%N
-              [((1, 10), 500); ((1, 11), 501); ((3, 10), 512)]%N 19%N 21%N [(19, 16)]%N eq_refl) as [A B].
+              [((1, 10), 500); ((1, 11), 501); ((3, 10), 512)]%N 19%N 21%N [(19, 16)]%N [24]%N [(10, 24); (11, 24)]%N eq_refl) as [A B].
   split; [exact A | split; [exact B|]].
   split; [apply wf_ha_forallb | apply wf_slots_forallb]; reflexivity.
 Qed.
@@ -863,7 +898,7 @@ Proof. split; vm_compute; reflexivity. Qed.
 (* D160: with the switch on (today's code) `pvd.e0 = None` keeps the old value; the rules demand "None" *)
 Theorem refuted_D160 :
   exists steps, wf_state ex_host ex_state /\
-    run_model (ex_cfg (only 160)) 4 ex_state steps <> run_spec ex_host ex_funcs [(1, 13)]%N 4 ex_state steps.
+    run_model (ex_cfg (only 160)) 4 ex_state steps <> run_spec ex_host ex_funcs 4 ex_state steps.
 Proof.
   exists [SScript [] (OAssign (DAttr (DHead 1%N) 10%N) (VLit 0%N))]. split; [apply host_table_ok|].
   intros E. vm_compute in E. discriminate E.
@@ -872,7 +907,7 @@ Qed.
 (* D161: `pvd.e0.value = 1` sets the state value instead of the attribute `value` *)
 Theorem refuted_D161 :
   exists steps, wf_state ex_host ex_state /\
-    run_model (ex_cfg (only 161)) 4 ex_state steps <> run_spec ex_host ex_funcs [(1, 13)]%N 4 ex_state steps.
+    run_model (ex_cfg (only 161)) 4 ex_state steps <> run_spec ex_host ex_funcs 4 ex_state steps.
 Proof.
   exists [SScript [] (OAssign (DAttr (DAttr (DHead 1%N) 10%N) set_param_value) (VLit 16%N))]. split; [apply host_table_ok|].
   intros E. vm_compute in E. discriminate E.
@@ -881,7 +916,7 @@ Qed.
 (* D7: `del pvg.e0` with pvg a global Python object deletes the state entity pvg.e0 *)
 Theorem refuted_D7 :
   exists steps, wf_state ex_host ex_state /\
-    run_model (ex_cfg (only 7)) 4 ex_state steps <> run_spec ex_host ex_funcs [(1, 13)]%N 4 ex_state steps.
+    run_model (ex_cfg (only 7)) 4 ex_state steps <> run_spec ex_host ex_funcs 4 ex_state steps.
 Proof.
   exists [SScript [] (ODel (DAttr (DHead 3%N) 10%N))]. split; [apply host_table_ok|].
   intros E. vm_compute in E. discriminate E.
